@@ -563,12 +563,107 @@ def run(ctx):
             finally:
                 _recycle[0] = None
         ctx.notes.append("3 x 30 generated files written to the same 30 paths")
+        repeat_oracle(ctx)
     finally:
         cleanup()
 
 
+# ---------------------------------------------------------------- one lambda expression passed several times
+# The same code object reaches the operator again and again - a loop over cuts, a query factory called twice, a one-line def
+# used before and after a global changes.  Each recording must behave like the callable that was passed *at that call*.
+
+REPEAT_SOURCES = [
+    "for k in (3, 40, 500):\n    ds.Select(lambda e: e.v + k)\n",
+    "for k in (3, 40):\n    for m in (2, 7):\n        ds.Where(lambda e: e.v * m > k)\n",
+    "def times(m):\n    return ds.Where(lambda e: e.v * m > 100)\ntimes(2)\ntimes(30)\ntimes(2)\n",
+    "def cut(c, tag):\n    return ds.Select(lambda e: (e.v > c, tag))\ncut(5, 'a')\ncut(50, 'b')\n",
+    "def one(e): return e.v - K\nK = 5\nds.Select(one)\nK = 60\nds.Select(one)\n",
+    "for k in (1, 2):\n    ds.Select(lambda e: e.v + k).Select(lambda j: j.v - k)\n",
+]
+REPEAT_PRELUDE = ("from func_adl.util_ast import parse_as_ast\nOUT = []\n"
+                  "class _D:\n"
+                  "    def Select(self, f):\n        OUT.append((f, 'Select', parse_as_ast(f, 'Select')))\n        return self\n"
+                  "    def Where(self, f):\n        OUT.append((f, 'Where', parse_as_ast(f, 'Where')))\n        return self\n"
+                  "    def SelectMany(self, f):\n        OUT.append((f, 'SelectMany', parse_as_ast(f, 'SelectMany')))\n        return self\n"
+                  "ds = _D()\n")
+
+
+def repeat_oracle(ctx, only=None):
+    import ast
+    import importlib.util
+    import sys
+    import types
+
+    os.makedirs(WORK, exist_ok=True)
+    events = [types.SimpleNamespace(v=v) for v in (1, 4, 30, 60, 700)]
+    for i, body in enumerate(REPEAT_SOURCES):
+        if only is not None and body != only:
+            continue
+        name = "repeat_%d_%d" % (os.getpid(), i)
+        path = os.path.join(WORK, name + ".py")
+        with open(path, "w") as fh:
+            fh.write(REPEAT_PRELUDE + body)
+        spec = importlib.util.spec_from_file_location(name, path)
+        mod = importlib.util.module_from_spec(spec)
+        sys.modules[name] = mod
+        # the callable's own values are read at the moment it is passed: wrap the recording calls
+        got = []
+        try:
+            src = REPEAT_PRELUDE + body
+            # record python's values at call time by evaluating the callable inside the operator call
+            src = src.replace("OUT.append((f, ", "OUT.append(([_v(f, x) for x in EVENTS], ")
+            with open(path, "w") as fh:
+                fh.write(src)
+            mod.EVENTS = events
+
+            def _v(f, x):
+                try:
+                    return ("ok", f(x))
+                except Exception as ex:  # noqa
+                    return ("exc", type(ex).__name__)
+            mod._v = _v
+            try:
+                spec.loader.exec_module(mod)
+                got = list(mod.OUT)
+                raised = None
+            except Exception as ex:  # noqa
+                raised = type(ex).__name__
+        finally:
+            sys.modules.pop(name, None)
+        ctx.evaluations += 1
+        if raised is not None:
+            # raising instead of recording is allowed by the property's letter for layouts it cannot identify; these are supported
+            ctx.count("repeat", "raised " + raised)
+            ctx.fail("failing-input", "C03 oracle 'repeat': a documented layout (one lambda per call) passed repeatedly raises %s: %s"
+                     % (raised, body), {"oracle": "repeat", "body": body}, key=core.digest({"p": ID, "repeat": body}))
+            continue
+        bad = None
+        for k, (want, op, tree) in enumerate(got):
+            try:
+                fn = eval(compile(ast.fix_missing_locations(ast.Expression(body=tree)), "<recorded>", "eval"), {})
+                have = [_v(fn, x) for x in events]
+            except Exception as ex:  # noqa
+                have = [("uncompilable", type(ex).__name__)]
+            if have != want:
+                bad = "call #%d (%s): recorded `%s` computes %r, the callable passed at that call computes %r" % (
+                    k + 1, op, ast.unparse(tree), have, want)
+                break
+        ctx.count("repeat", "a recording differs from its callable" if bad else "every recording behaves like its callable")
+        if bad:
+            ctx.fail("failing-input", "C03 oracle 'repeat': %s ; program: %s" % (bad, body), {"oracle": "repeat", "body": body},
+                     key=core.digest({"p": ID, "repeat": body}))
+    ctx.notes.append("repeat oracle: %d programs passing one lambda expression / one-line def several times with other captured "
+                     "values (loops, query factories, a global rebound in between)" % len(REPEAT_SOURCES))
+
+
 def replay(ctx, w):
     atexit.register(cleanup)
+    if w.get("oracle") == "repeat":
+        try:
+            repeat_oracle(ctx, only=w["body"])
+        finally:
+            cleanup()
+        return
     import logging
     logging.disable(logging.CRITICAL)
     try:
